@@ -45,6 +45,21 @@ pub mod verif {
 	) -> ((u64, usize), (u64, usize)) {
 		crate::index::IndexTable::verif_find_entries(index_bits, key_prefix, sub_index, page)
 	}
+
+	/// The crate's own compressor (C06: the model takes the compressed length as an input).
+	pub fn compress(kind: crate::CompressionType, data: &[u8]) -> Vec<u8> {
+		crate::compress::Compress::new(kind, 0).compress(data)
+	}
+
+	/// Entry sizes of the fixed-size value table tiers (`column::SIZES`).
+	pub fn entry_sizes() -> Vec<u16> {
+		crate::column::verif_sizes().to_vec()
+	}
+
+	/// `hash_key` of a hash column for the current database version.
+	pub fn hash_key(key: &[u8], salt: &[u8; 32], uniform: bool) -> crate::Key {
+		crate::column::hash_key(key, salt, uniform, crate::options::CURRENT_VERSION)
+	}
 }
 
 pub const KEY_SIZE: usize = 32;
